@@ -30,7 +30,8 @@ type c16Piece struct {
 	HdrActual uint64 `json:"hdrActual"`
 	RegionOK  bool   `json:"regionOK"`
 	Secs      []int  `json:"secs"`
-	Trailing  int    `json:"trailing"` // sections found after the content region (subset / epoch nodes)
+	Trailing  int    `json:"trailing"`  // sections found after the content region (subset / epoch nodes)
+	TrailOrig int    `json:"trailorig"` // ... of which are objects of the original CAR (must be none: every object is in one piece)
 }
 
 type c16Split struct {
@@ -43,6 +44,11 @@ type c16Split struct {
 	Readback []int      `json:"readback"`
 	HeaderOK bool       `json:"headerOK"`
 	Err      string     `json:"err"`
+	// growth (merge-cars, the inverse tool): the real merge of the written pieces vs the nul-root header followed by every
+	// piece's bytes after its header
+	MergedLen  int  `json:"mergedlen"`
+	MergeWant  int  `json:"mergewant"`
+	MergedSame bool `json:"mergedsame"`
 }
 
 type c16plain struct {
@@ -248,7 +254,10 @@ func TestVerifC16Split(t *testing.T) {
 			if target < 1 {
 				target = 1
 			}
-			od := filepath.Join(dir, fmt.Sprintf("out-%d-%d", ci, ti))
+			// one output directory per archive, used again for every target (a re-split with other parameters overwrites the
+			// piece files of the previous one; the piece count grows with ti in the first five targets)
+			_ = ti
+			od := filepath.Join(dir, fmt.Sprintf("out-%d", ci))
 			os.MkdirAll(od, 0o755)
 			o := c16Split{Kind: "split", Target: target, Blocks: nblocks, Orig: kept, Families: fams, Pieces: []c16Piece{}, Readback: []int{}}
 			cmd := exec.Command(os.Args[0], "-test.run=^TestVerifC16SplitChild$")
@@ -281,6 +290,11 @@ func TestVerifC16Split(t *testing.T) {
 					pc.Secs, pc.RegionOK = c16walk(pb[p.HeaderSize:p.HeaderSize+p.ContentSize], ids)
 					tr, _ := c16walk(pb[p.HeaderSize+p.ContentSize:], ids)
 					pc.Trailing = len(tr)
+					for _, id := range tr {
+						if id != 0 {
+							pc.TrailOrig++
+						}
+					}
 				}
 				if pc.Secs == nil {
 					pc.Secs = []int{}
@@ -325,9 +339,34 @@ func TestVerifC16Split(t *testing.T) {
 					o.Pieces[i].Secs = []int{}
 				}
 			}
+			// merge-cars over the written pieces
+			if o.Err == "" {
+				var want []byte
+				want = append(want, []byte(nulRootCarHeader)...)
+				args := []string{"x", "merge-cars", "-o", filepath.Join(od, "merged.car")}
+				for _, p := range meta.CarPieces.CarPieces {
+					pb, _ := os.ReadFile(p.Name)
+					hl, n := uvarintC16(pb)
+					if int(hl)+n <= len(pb) {
+						want = append(want, pb[int(hl)+n:]...)
+					}
+					args = append(args, p.Name)
+				}
+				o.MergeWant = len(want)
+				if pm := vt.Guard(func() {
+					app := &cli.App{Commands: []*cli.Command{newCmd_MergeCars()}}
+					if err := app.Run(args); err == nil {
+						got, _ := os.ReadFile(filepath.Join(od, "merged.car"))
+						o.MergedLen, o.MergedSame = len(got), bytes.Equal(got, want)
+					}
+				}); pm != "" {
+					o.MergedLen = -1
+				}
+				os.Remove(filepath.Join(od, "merged.car"))
+			}
 			out.Emit(o)
-			os.RemoveAll(od)
 		}
+		os.RemoveAll(filepath.Join(dir, fmt.Sprintf("out-%d", ci)))
 	}
 }
 
